@@ -182,7 +182,7 @@ func rnsMachine(rt *rapid.T, c *chain.Chain, wts rnsWeights, oracle func(*rnsWor
 	for _, key := range w.canon {
 		if rapid.IntRange(0, 9).Draw(rt, "preregister") < 8 {
 			s := w.drawAcc(rt, "registrant")
-			check(w.run("register", s, key, rnstypes.NewMsgRegisterName(s.Bech, key, rapid.Int64Range(1, 2).Draw(rt, "years"), "{}", false), nil))
+			check(w.run("register", s, key, newMsgRegisterName(s.Bech, key, rapid.Int64Range(1, 2).Draw(rt, "years"), "{}", false), nil))
 		}
 	}
 	bidW := 1
@@ -196,7 +196,7 @@ func rnsMachine(rt *rapid.T, c *chain.Chain, wts rnsWeights, oracle func(*rnsWor
 			years := rapid.Int64Range(1, 3).Draw(rt, "years")
 			data := rapid.SampledFrom([]string{"{}", `{"k":"v"}`, "plain"}).Draw(rt, "data")
 			sp := spell(rt, key)
-			check(w.run("register", s, sp, rnstypes.NewMsgRegisterName(s.Bech, sp, years, data, rapid.Bool().Draw(rt, "primary")), nil))
+			check(w.run("register", s, sp, newMsgRegisterName(s.Bech, sp, years, data, rapid.Bool().Draw(rt, "primary")), nil))
 		},
 		// a registrant that cannot afford the name (an account that holds a few coins only): the registration must fail and
 		// move nothing, whatever the name-service module account happens to hold in escrow
@@ -207,14 +207,14 @@ func rnsMachine(rt *rapid.T, c *chain.Chain, wts rnsWeights, oracle func(*rnsWor
 				must(w.c.App.BankKeeper.SendCoins(w.f.Ctx, w.accs[3].Addr, p.Addr, sdk.NewCoins(sdk.NewInt64Coin("ujkl", rapid.Int64Range(1, 3_000_000).Draw(rt, "coins")))))
 			}
 			sp := spell(rt, key)
-			check(w.run("register", p, sp, rnstypes.NewMsgRegisterName(p.Bech, sp, rapid.Int64Range(1, 2).Draw(rt, "years"), "{}", false), nil))
+			check(w.run("register", p, sp, newMsgRegisterName(p.Bech, sp, rapid.Int64Range(1, 2).Draw(rt, "years"), "{}", false), nil))
 		},
 		"list": func(rt *rapid.T) {
 			key := w.drawCanon(rt)
 			s := w.drawSigner(rt, key)
 			sp := spell(rt, key)
 			price := drawCoin(rt, "price")
-			check(w.run("list", s, sp, rnstypes.NewMsgList(s.Bech, sp, price), func(st *rnsStep) { st.Coin = price }))
+			check(w.run("list", s, sp, newMsgList(s.Bech, sp, price), func(st *rnsStep) { st.Coin = price }))
 		},
 		"delist": func(rt *rapid.T) {
 			key := w.drawCanon(rt)
@@ -249,7 +249,7 @@ func rnsMachine(rt *rapid.T, c *chain.Chain, wts rnsWeights, oracle func(*rnsWor
 				sortStrings(ls)
 				sp = ls[rapid.IntRange(0, len(ls)-1).Draw(rt, "listing")]
 			}
-			st := w.run("buy", s, sp, rnstypes.NewMsgBuy(s.Bech, sp), nil)
+			st := w.run("buy", s, sp, newMsgBuy(s.Bech, sp), nil)
 			if st.HadListing && st.NamesBefore[st.Key].Value != st.ListingModel.Creator {
 				w.staleAttempt = true
 			}
@@ -286,7 +286,7 @@ func rnsMachine(rt *rapid.T, c *chain.Chain, wts rnsWeights, oracle func(*rnsWor
 					}
 				}
 			}
-			st := w.run("cancel", s, sp, rnstypes.NewMsgCancelBid(s.Bech, sp), func(st *rnsStep) {
+			st := w.run("cancel", s, sp, newMsgCancelBid(s.Bech, sp), func(st *rnsStep) {
 				st.EscrowModel = w.escrow[s.Bech+strings.ToLower(sp)]
 			})
 			if st.Res.OK() && w.rebid {
@@ -478,17 +478,17 @@ func TestC08(t *testing.T) {
 		var fl *rnsFailure
 		steps := []func() *rnsFailure{
 			func() *rnsFailure {
-				return w.do("register", A, "abcde.jkl", rnstypes.NewMsgRegisterName(A.Bech, "abcde.jkl", 1, "{}", false), nil, c08Oracle)
+				return w.do("register", A, "abcde.jkl", newMsgRegisterName(A.Bech, "abcde.jkl", 1, "{}", false), nil, c08Oracle)
 			},
 			func() *rnsFailure {
 				p := sdk.NewInt64Coin("ujkl", 777)
-				return w.do("list", A, "abcde.jkl", rnstypes.NewMsgList(A.Bech, "abcde.jkl", p), func(st *rnsStep) { st.Coin = p }, c08Oracle)
+				return w.do("list", A, "abcde.jkl", newMsgList(A.Bech, "abcde.jkl", p), func(st *rnsStep) { st.Coin = p }, c08Oracle)
 			},
 			func() *rnsFailure {
 				return w.do("transfer", A, "abcde.jkl", rnstypes.NewMsgTransfer(A.Bech, "abcde.jkl", B.Bech), func(st *rnsStep) { st.Receiver = B.Bech }, c08Oracle)
 			},
 			func() *rnsFailure {
-				return w.do("buy", C, "abcde.jkl", rnstypes.NewMsgBuy(C.Bech, "abcde.jkl"), nil, c08Oracle)
+				return w.do("buy", C, "abcde.jkl", newMsgBuy(C.Bech, "abcde.jkl"), nil, c08Oracle)
 			},
 		}
 		for _, s := range steps {
@@ -540,7 +540,7 @@ func TestC09(t *testing.T) {
 		}
 		if fl = bid(5); fl == nil {
 			if fl = bid(7); fl == nil {
-				fl = w.do("cancel", A, "abcde.jkl", rnstypes.NewMsgCancelBid(A.Bech, "abcde.jkl"), func(st *rnsStep) { st.EscrowModel = w.escrow[A.Bech+"abcde.jkl"] }, c09Oracle)
+				fl = w.do("cancel", A, "abcde.jkl", newMsgCancelBid(A.Bech, "abcde.jkl"), func(st *rnsStep) { st.EscrowModel = w.escrow[A.Bech+"abcde.jkl"] }, c09Oracle)
 			}
 		}
 		if fl != nil {
